@@ -269,10 +269,12 @@ impl LangInterpreter for French {
                 } else {
                     ""
                 };
-                if previous_text != "numéro"
-                    && self.apply(previous_text, &mut b).is_err()
-                    && self.apply(next_text, &mut b).is_err()
-                {
+                // each neighbour is tested on its own, from a clean scratch buffer
+                b.reset();
+                let previous_is_num = self.apply(previous_text, &mut b).is_ok();
+                b.reset();
+                let next_is_num = self.apply(next_text, &mut b).is_ok();
+                if previous_text != "numéro" && !previous_is_num && !next_is_num {
                     tokens[true_words[i]].set_nan(true);
                 }
             }
